@@ -769,9 +769,12 @@ func (rw *rworld) applyJitter() {
 	if j <= 0 {
 		return
 	}
+	y := sim.SpinJitter(j, uint64(rw.s.Cfg["jsalt"]))
 	for _, rn := range rw.nodes {
-		rn.sn.Disk.Yield = sim.SpinJitter(j, uint64(rw.s.Cfg["jsalt"]))
+		rn.sn.Disk.Yield = y
+		rn.sn.Exec.Yield = y
 	}
+	rw.w.DA.Yield = y
 	rw.o.Count("fault:disk-scheduling-jitter", 1)
 }
 
